@@ -47,7 +47,7 @@ LEVEL_TEXT = (
 )
 LEVEL_NOTE = "oracle trusts only the documented snapping conventions; ground truth of the generator is never consulted by the oracle; no field arrays involved"
 
-KNOWN_PREDICATES = {"size_constrained_axis_without_position": pc.known_c26}
+KNOWN_PREDICATES = dict(pc.KNOWN_C26)
 
 
 def generate(rng, tier, index):
